@@ -9,7 +9,8 @@
 //
 // cfg = <write-handle slots per thread> <snapshot slots per thread> <initial value> <mutex kind: 0 std::mutex,
 //        1 std::timed_mutex> <throw plan: global indices of the user_call invocations that throw>...
-// ops:  0..3 s   lock / try_lock / try_lock_for / try_lock_until into write slot s
+// ops:  0 s      lock() into write slot s   (codes 1..3 are reserved for try_lock / try_lock_for / try_lock_until,
+//                which cannot be instantiated: `return handle();` is ill-formed for every T; they are refused)
 //       4 s v    h->p.write(v) through the write handle in slot s
 //       5 s      h->p.incr()
 //       6 s      read once through the write handle in slot s (returns the value)
@@ -110,12 +111,8 @@ struct CowImpl {
             auto& h = W[(size_t)a];
             switch (k) {
                 case 0: if (h) return -1; h.emplace(cow.lock()); return 0;
-                case 1: if (h) return -1; h.emplace(cow.try_lock()); return 0;
-                case 2: if (h) return -1; h.emplace(cow.try_lock_for(std::chrono::milliseconds(1))); return 0;
-                case 3:
-                    if (h) return -1;
-                    h.emplace(cow.try_lock_until(std::chrono::steady_clock::now() + std::chrono::milliseconds(1)));
-                    return 0;
+                // 1..3 (try_lock / try_lock_for / try_lock_until) cannot be driven: those three members do not
+                // compile for any T, Mutex (`return handle();` needs a default-constructible deleter)
                 case 4: if (!h) return -1; (*h)->touch(); (*h)->p.write(b); return 0;
                 case 5: if (!h) return -1; (*h)->touch(); (*h)->p.incr(); return 0;
                 case 6: if (!h) return -1; (*h)->touch(); return (*h)->p.read();
